@@ -16,7 +16,7 @@ use refmodel::RV;
 use stateright::{Checker, Model};
 use std::sync::atomic::Ordering::Relaxed;
 
-const MODE_NAMES: [&str; 3] = ["ahash-fixed-seed", "constant-hash", "two-class-hash"];
+const MODE_NAMES: [&str; 4] = ["ahash-fixed-seed", "constant-hash", "two-class-hash", "ahash-seed-per-index"];
 
 struct RunCfg {
     name: &'static str,
@@ -136,7 +136,7 @@ fn state_runs(tier: Tier) -> Vec<RunCfg> {
             max_depth: None,
             inits: vec![Init::Empty],
             fine: false,
-            modes: vec![0, 1, 2],
+            modes: vec![0, 1, 2, 3],
         },
         RunCfg {
             name: "3 keys (one heap-allocated) x 2 values, len<=5, fixpoint",
@@ -146,7 +146,7 @@ fn state_runs(tier: Tier) -> Vec<RunCfg> {
             max_depth: None,
             inits: vec![Init::Empty],
             fine: false,
-            modes: vec![0, 1, 2],
+            modes: vec![0, 1, 2, 3],
         },
         RunCfg {
             name: "pumped start states (rehash cycles, tombstones), depth<=2",
@@ -215,7 +215,7 @@ fn state_runs(tier: Tier) -> Vec<RunCfg> {
             max_depth: None,
             inits: vec![Init::Empty],
             fine: false,
-            modes: vec![0, 1, 2],
+            modes: vec![0, 1, 2, 3],
         });
         v.push(RunCfg {
             name: "pumped start states (rehash cycles, tombstones), depth<=3",
@@ -402,6 +402,101 @@ fn c14_law_universe(rep: &mut Report, tier: Tier, leaves: &[RV], keys: &[&str], 
 /// C14, construction routes: the same content built through every public route (so that
 /// inline/heap storage, buffer capacity and table internals differ) must be ==, compare Equal
 /// and hash identically; also inside arrays and objects (as key and as value).
+/// Laws on wide objects: for every n through the size thresholds, a base object with n distinct
+/// keys and every object obtained from it by at most two edits out of {a value lowered / raised
+/// at position i, a key lowered / raised at a later position j, truncation just after i with the
+/// next value raised / lowered, one entry appended}; on every such set of ~40 objects: `==` is
+/// structural, cmp is antisymmetric, Equal exactly when equal, transitive on every triple, and
+/// agrees with partial_cmp; equal objects hash equally. (Two differences pointing in opposite
+/// directions, together with a shorter object that lies between, are what a comparison that
+/// looks at keys and values separately gets wrong.)
+fn c14_wide_laws(rep: &mut Report, tier: Tier) {
+    use json_syntax::Object;
+    use std::cmp::Ordering;
+    let sizes: Vec<usize> = refmodel::pump::thresholds(tier.pick(257, 1025)).into_iter().filter(|&n| n >= 3).collect();
+    let count = sizes.len();
+    let t = explore::par_tally(sizes, |n, t| wide_laws_one(n, t));
+    rep.bounds["wide_laws"] = json!({"sizes": count, "cap": tier.pick(257, 1025), "objects_per_size": 37, "edits": 8});
+    rep.absorb(t);
+}
+
+fn wide_laws_one(n: usize, t: &mut Tally) {
+    use json_syntax::Object;
+    use std::cmp::Ordering;
+    {
+        let key = |i: usize| format!("k{i:05}");
+        let base: Vec<(String, i64)> = (0..n).map(|i| (key(i), 5)).collect();
+        let i = n / 3;
+        let j = (2 * n / 3).max(i + 1).min(n - 1);
+        type Ent = Vec<(String, i64)>;
+        let edits: Vec<(&str, Box<dyn Fn(&mut Ent)>)> = vec![
+            ("value[i] lowered", Box::new(move |e: &mut Ent| if i < e.len() { e[i].1 = 1 })),
+            ("value[i] raised", Box::new(move |e: &mut Ent| if i < e.len() { e[i].1 = 9 })),
+            ("key[j] lowered", Box::new(move |e: &mut Ent| if j < e.len() { e[j].0 = "a-low-key".into() })),
+            ("key[j] raised", Box::new(move |e: &mut Ent| if j < e.len() { e[j].0 = "z-high-key".into() })),
+            ("truncated after i+1, value[i+1] raised", Box::new(move |e: &mut Ent| { e.truncate(i + 2); if i + 1 < e.len() { e[i + 1].1 = 9 } })),
+            ("truncated after i+1, value[i+1] lowered", Box::new(move |e: &mut Ent| { e.truncate(i + 2); if i + 1 < e.len() { e[i + 1].1 = 1 } })),
+            ("one entry appended", Box::new(|e: &mut Ent| e.push(("k00000".into(), 5)))),
+            ("last key duplicated from the first", Box::new(|e: &mut Ent| { let k = e[0].0.clone(); if let Some(l) = e.last_mut() { l.0 = k } })),
+        ];
+        let mut variants: Vec<(String, Ent)> = vec![("base".into(), base.clone())];
+        for (a, (na, ea)) in edits.iter().enumerate() {
+            let mut x = base.clone();
+            ea(&mut x);
+            variants.push((na.to_string(), x.clone()));
+            for (nb, eb) in edits.iter().skip(a + 1) {
+                let mut y = x.clone();
+                eb(&mut y);
+                variants.push((format!("{na} + {nb}"), y));
+            }
+        }
+        let objs: Vec<Object> = variants.iter().map(|(_, e)| Object::from_vec(e.iter().map(|(k, v)| json_syntax::object::Entry::new(k.as_str().into(), Value::from(*v))).collect())).collect();
+        let m = objs.len();
+        let case = |a: usize, b: usize, c: Option<usize>| json!({"kind": "wide-law", "n": n, "a": variants[a].0, "b": variants[b].0, "c": c.map(|c| variants[c].0.clone())});
+        let mut ord = vec![vec![Ordering::Equal; m]; m];
+        for a in 0..m {
+            for b in 0..m {
+                t.evals += 1;
+                let structural = variants[a].1 == variants[b].1;
+                let o = objs[a].cmp(&objs[b]);
+                ord[a][b] = o;
+                if (objs[a] == objs[b]) != structural {
+                    t.violation("", format!("n={n}: [{}] == [{}] is {}, the entry lists are {}", variants[a].0, variants[b].0, objs[a] == objs[b], if structural { "equal" } else { "different" }), case(a, b, None));
+                }
+                if (o == Ordering::Equal) != structural || objs[a].partial_cmp(&objs[b]) != Some(o) {
+                    t.violation("", format!("n={n}: cmp([{}], [{}]) = {o:?} but the entry lists are {}", variants[a].0, variants[b].0, if structural { "equal" } else { "different" }), case(a, b, None));
+                }
+                if structural && std_hash(&objs[a]) != std_hash(&objs[b]) {
+                    t.violation("", format!("n={n}: equal objects hash differently"), case(a, b, None));
+                }
+                // the same through Value
+                let (va, vb) = (Value::Object(objs[a].clone()), Value::Object(objs[b].clone()));
+                if va.cmp(&vb) != o || (va == vb) != structural {
+                    t.violation("", format!("n={n}: Value::Object compares differently from Object"), case(a, b, None));
+                }
+            }
+        }
+        for a in 0..m {
+            for b in 0..m {
+                if ord[a][b] != ord[b][a].reverse() {
+                    t.violation("", format!("n={n}: cmp is not antisymmetric on [{}], [{}]", variants[a].0, variants[b].0), case(a, b, None));
+                }
+                if ord[a][b] != Ordering::Less {
+                    continue;
+                }
+                for c in 0..m {
+                    t.evals += 1;
+                    if ord[b][c] == Ordering::Less && ord[a][c] != Ordering::Less {
+                        t.violation("", format!("n={n}: cmp is not transitive: [{}] < [{}] < [{}] but cmp(first, last) = {:?}", variants[a].0, variants[b].0, variants[c].0, ord[a][c]), case(a, b, Some(c)));
+                    }
+                }
+            }
+        }
+        t.nontrivial(&("wide", n));
+        t.outcome("wide-object laws");
+    }
+}
+
 fn c14_routes(rep: &mut Report) {
     use json_syntax::{NumberBuf, Object, Parse};
     let mut t = Tally::new();
@@ -512,6 +607,7 @@ fn serde_json_string(s: &str) -> serde_json::Value {
 fn c15(rep: &mut Report, tier: Tier) {
     c15_universe(rep, tier, &[RV::num("0"), RV::num("1")], &["a", "b"], 5, "binary");
     c15_pumped(rep, tier);
+    c15_routes(rep, tier);
     if tier == Tier::Thorough {
         c15_universe(rep, tier, &[RV::num("0"), RV::num("1.0"), RV::Null, RV::str("a")], &["a", "b", "c"], 4, "rich");
     }
@@ -587,6 +683,90 @@ fn c15_pumped(rep: &mut Report, tier: Tier) {
     });
     rep.bounds["pumped"] = json!({"objects": count, "cap": tier.pick(513, 2049), "variants": ["reversed", "rotated", "one value changed", "one key changed", "one multiplicity changed", "values wrapped in objects with members swapped in every other one", "one wrapped value changed"]});
     rep.absorb(t);
+}
+
+/// Unordered comparison must not depend on how an object was built: objects grown through the
+/// index thresholds and drained again (front / back / alternating / middle) against a freshly
+/// built permutation of the same entries, in both directions, through Value and nested, and
+/// against a permutation with one value changed.
+fn c15_routes(rep: &mut Report, tier: Tier) {
+    use json_syntax::object::Entry;
+    use json_syntax::Object;
+    let sizes: Vec<usize> = if tier == Tier::Quick { vec![5, 8, 15, 16, 29, 30, 57, 58, 113, 225] } else { vec![4, 5, 8, 9, 15, 16, 29, 30, 57, 58, 113, 114, 225, 226, 449, 450, 897, 898] };
+    let mut items = Vec::new();
+    for &n in &sizes {
+        for keep in [1usize, 3, 8, n / 8 + 1] {
+            for how in 0..4u8 {
+                if keep < n {
+                    items.push((n, keep, how));
+                }
+            }
+        }
+    }
+    let count = items.len();
+    let t = explore::par_tally(items, |(n, keep, how), t| route_one(n, keep, how, t));
+    rep.bounds["routes"] = json!({"objects": count, "peaks": sizes, "kept": [1, 3, 8, "peak/8+1"], "removal_patterns": 4});
+    rep.absorb(t);
+}
+
+fn route_one(n: usize, keep: usize, how: u8, t: &mut Tally) {
+    use json_syntax::object::Entry;
+    use json_syntax::Object;
+    {
+        let (drained, model) = match explore::guard(|| model::Init::GrowShrink(n, keep, how).build()) {
+            Ok(x) => x,
+            Err(p) => {
+                t.violation("", format!("building the drained object panicked: {p}"), json!({"kind": "unordered-route", "n": n, "keep": keep, "how": how}));
+                return;
+            }
+        };
+        let entries: Vec<Entry> = drained.entries().to_vec();
+        let mut rev = entries.clone();
+        rev.reverse();
+        let fresh = Object::from_vec(rev.clone());
+        let mut changed = rev.clone();
+        changed[0].value = Value::from("changed");
+        let other = Object::from_vec(changed);
+        let case = || json!({"kind": "unordered-route", "n": n, "keep": keep, "how": how, "entries": model.entries.len()});
+        t.evals += 1;
+        let (vd, vf, vo) = (Value::Object(drained.clone()), Value::Object(fresh.clone()), Value::Object(other.clone()));
+        let nest = |x: &Value| Value::Array(vec![Value::Null, x.clone()]);
+        let r = explore::guard(|| {
+            let mut bad = Vec::new();
+            let yes = [
+                ("fresh ~ drained", fresh.unordered_eq(&drained)),
+                ("drained ~ fresh", drained.unordered_eq(&fresh)),
+                ("drained ~ drained.clone()", drained.unordered_eq(&drained.clone())),
+                ("drained.clone() ~ drained", drained.clone().unordered_eq(&drained)),
+                ("Value: fresh ~ drained", vf.unordered_eq(&vd)),
+                ("Value: drained ~ fresh", vd.unordered_eq(&vf)),
+                ("nested: fresh ~ drained", nest(&vf).unordered_eq(&nest(&vd))),
+                ("nested: drained ~ fresh", nest(&vd).unordered_eq(&nest(&vf))),
+            ];
+            for (what, got) in yes {
+                if !got {
+                    bad.push(format!("{what} is false for a permutation of the same entries"));
+                }
+            }
+            let no = [("changed ~ drained", other.unordered_eq(&drained)), ("drained ~ changed", drained.unordered_eq(&other)), ("Value: drained ~ changed", vd.unordered_eq(&vo))];
+            for (what, got) in no {
+                if got {
+                    bad.push(format!("{what} is true although one value differs"));
+                }
+            }
+            bad
+        });
+        match r {
+            Ok(bad) => {
+                for b in bad {
+                    t.violation("", format!("object grown to {n} keys and drained to {keep} (mode {how}): {b}"), case());
+                }
+            }
+            Err(p) => t.violation("", format!("unordered comparison panicked: {p}"), case()),
+        }
+        t.nontrivial(&(n, keep, how));
+        t.outcome("construction routes");
+    }
 }
 
 /// (helper) whether replacing the last entry by a copy of the first leaves the multiset unchanged
@@ -756,6 +936,22 @@ fn main() {
         let r = match kind {
             "object-history" => replay_history(case),
             "unordered-pair" | "value-pair" => replay_pair(case, kind),
+            "unordered-route" => {
+                let mut t = Tally::new();
+                route_one(case["n"].as_u64().unwrap_or(5) as usize, case["keep"].as_u64().unwrap_or(1) as usize, case["how"].as_u64().unwrap_or(0) as u8, &mut t);
+                match t.violations.first() {
+                    None => Ok(()),
+                    Some(v) => Err(v.what.clone()),
+                }
+            }
+            "wide-law" => {
+                let mut t = Tally::new();
+                wide_laws_one(case["n"].as_u64().unwrap_or(3) as usize, &mut t);
+                match t.violations.first() {
+                    None => Ok(()),
+                    Some(v) => Err(v.what.clone()),
+                }
+            }
             other => Err(format!("replay of case kind {other:?} is not supported; see the 'what' field")),
         };
         match r {
@@ -783,6 +979,7 @@ fn main() {
             state_search(&mut rep, args.tier, "C14");
             c14_laws(&mut rep, args.tier);
             c14_routes(&mut rep);
+            c14_wide_laws(&mut rep, args.tier);
             rep.rule = "histories: every reachable state of the C06 search is compared (==, cmp, partial_cmp, hash, also wrapped in Value) with from_vec / from_iter / clone builds of the same entry list, under three hash modes; laws: all ordered pairs and all triples a<=b<=c of the universe of all values up to the node bound".into();
             rep.assumptions.push("std's DefaultHasher::new() (fixed keys) is the probe hasher; equality of hashes is required only for equal values".into());
             rep.finish()
